@@ -62,7 +62,7 @@ func zs(z string) string {
 
 func validIP(ip net.IP) bool { return len(ip) == 4 || len(ip) == 16 }
 
-func viol(c *corr.Ctx, sc *Scenario, clause, key, detail string) {
+func viol(c *rctx, sc *Scenario, clause, key, detail string) {
 	c.Violate(corr.Violation{Property: "C19", Clause: clause, Key: key, Where: "gortsplib (root package)", Input: sc, Detail: detail})
 }
 
@@ -70,7 +70,7 @@ func viol(c *corr.Ctx, sc *Scenario, clause, key, detail string) {
 // fill / Equal
 // ---------------------------------------------------------------------------------------------
 
-func runUnit(c *corr.Ctx, sc *Scenario) {
+func runUnit(c *rctx, sc *Scenario) {
 	cs := corr.Case{Name: sc.Name, Nontrivial: true}
 	for _, op := range sc.Ops {
 		switch op.K {
@@ -108,7 +108,7 @@ type cbStat struct {
 	last        int64
 }
 
-func runSrv(c *corr.Ctx, sc *Scenario) {
+func runSrv(c *rctx, sc *Scenario) {
 	pc := newFakePC(&net.UDPAddr{IP: net.IPv4(127, 0, 0, 1).To4(), Port: 8000})
 	l, err := gortsplib.VerifPeerNewServerListener(pc, "127.0.0.1:8000")
 	if err != nil {
@@ -241,7 +241,7 @@ var lastCb int
 // client listener: the real clientUDPListener.run on a fake packet conn
 // ---------------------------------------------------------------------------------------------
 
-func runCl(c *corr.Ctx, sc *Scenario) {
+func runCl(c *rctx, sc *Scenario) {
 	cs := corr.Case{Name: sc.Name, Nontrivial: len(sc.Ops) > 2}
 	var l *gortsplib.VerifPeerClientListener
 	var pc *fakePC
@@ -250,6 +250,7 @@ func runCl(c *corr.Ctx, sc *Scenario) {
 	var readIP net.IP
 	readZone := ""
 	anyPort, mcast := false, false
+	stopped := false
 	defer func() {
 		if l != nil {
 			l.Close()
@@ -263,6 +264,7 @@ func runCl(c *corr.Ctx, sc *Scenario) {
 				l.Close()
 			}
 			pc = newFakePC(&net.UDPAddr{IP: net.IPv6zero, Port: 34000})
+			stopped = false
 			delivered = 0
 			now = 0
 			readIP, readZone, anyPort, mcast = ip, op.Zone, op.Any, op.Proto == "multicast"
@@ -276,7 +278,38 @@ func runCl(c *corr.Ctx, sc *Scenario) {
 			l.Start()
 			cs.Ops = append(cs.Ops, fmt.Sprintf("peer cinit %s %s %s %s %d", corr.B(op.Any), corr.B(mcast), op.IP, zs(op.Zone), op.Port))
 			cs.Impl = append(cs.Impl, "ok")
+		case "cstop":
+			if !stopped {
+				pc.WaitIdle()
+				l.Stop()
+			}
+			stopped = true
+			cs.Ops = append(cs.Ops, "peer cstop")
+			cs.Impl = append(cs.Impl, "ok")
+		case "cstart":
+			now = op.Now
+			if stopped {
+				l.Start()
+				stopped = false
+			}
+			pc.WaitIdle()
+			cs.Ops = append(cs.Ops, fmt.Sprintf("peer cstart %d", op.Now))
+			cs.Impl = append(cs.Impl, fmt.Sprintf("started rp %d last %d n %d", l.ReadPort(), l.LastPacketTime(), delivered))
 		case "cpkt":
+			if stopped {
+				// the read loop is not running (PAUSE / TEARDOWN): the datagram waits in the socket
+				rp0, last0, n0 := l.ReadPort(), l.LastPacketTime(), delivered
+				pc.Push(&net.UDPAddr{IP: ip, Port: op.Port, Zone: op.Zone}, make([]byte, op.Len))
+				time.Sleep(200 * time.Microsecond)
+				cs.Ops = append(cs.Ops, fmt.Sprintf("peer cpkt %s %s %d %d %d", op.IP, zs(op.Zone), op.Port, op.Len, op.Now))
+				cs.Impl = append(cs.Impl, fmt.Sprintf("queued rp %d last %d n %d", l.ReadPort(), l.LastPacketTime(), delivered))
+				c.Dist("cl-while-stopped")
+				if l.ReadPort() != rp0 || l.LastPacketTime() != last0 || delivered != n0 {
+					viol(c, sc, "after PAUSE / TEARDOWN traffic no longer reaches the callbacks, statistics or timeouts",
+						"cl-stopped-side-effect", fmt.Sprintf("op %d: a stopped listener changed (readPort,last,n) (%d,%d,%d) -> (%d,%d,%d)", i, rp0, last0, n0, l.ReadPort(), l.LastPacketTime(), delivered))
+				}
+				continue
+			}
 			pc.WaitIdle()
 			rpBefore, lastBefore, nBefore := l.ReadPort(), l.LastPacketTime(), delivered
 			now = op.Now
